@@ -121,6 +121,7 @@ def run(ctx, rep):
         seen_k.add(mark.callee)
         rep.check(bool(tests) and not bad_, 'R-C18-5', 'state_filter: path tests guarding %s' % mark.callee, mark.loc(), 'tests: %s' % [c.callee for c in tests] if not bad_ else 'wrong filter variant: %s' % bad_, function='state_filter', construct='variant for %s' % mark.callee)
     filter_semantics_rule(P, rep)
+    nofollow_probe_rule(P, rep, 'R-C18-7', ('filter_existence',), 'the -m / -e existence filters')
 
 
 def filter_semantics_rule(P, rep, rid='R-C18-6'):
@@ -266,3 +267,23 @@ def filter_semantics_rule(P, rep, rid='R-C18-6'):
     if bad:
         rep.fail(rid, 'filter decision function', fe.file, bad, function='filter_element', construct='filter semantics')
     rep.extra['filter_evaluations'] = nrun
+
+
+FOLLOWING_PROBES = {'stat', 'stat64', 'access', 'open', 'fopen', 'open_noatime', 'realpath'}
+NOFOLLOW_PROBES = {'lstat', 'lstat64', 'readlink'}
+
+
+def nofollow_probe_rule(P, rep, rid, fnames, why):
+    """the named functions decide whether a directory entry exists / what it is; they must look at the entry itself (lstat), not at
+    what a symbolic link points to: with stat() a recorded link whose target is gone is "missing", and a link is its target"""
+    rep.rule(rid, 'entries are examined without following symbolic links (%s): the probe is lstat, no stat/access/open on the path' % why, len(fnames))
+    for fn in fnames:
+        f = P.fn(fn)
+        rep.analysed(f)
+        fol = [c for c in f.calls(FOLLOWING_PROBES)]
+        nof = [c for c in f.calls(NOFOLLOW_PROBES)]
+        if not fol and not nof:
+            raise AnalysisBroken('%s: no file-system probe recognised' % fn)
+        rep.check(not fol, rid, '%s probes the entry with lstat' % fn, (fol or nof)[0].loc(),
+                  '%s' % [c.callee for c in nof] if not fol else '%s(%s) follows symbolic links: a link whose target does not exist is reported as a missing entry, a link to a file as that file' % (fol[0].callee, f.expr(fol[0].ops[0])[:40]),
+                  function=fn, construct='existence probe')
